@@ -8,7 +8,7 @@ PLANS = {
     "C05": {"quick": {"runs": 16000, "budget_s": 75, "det": 32}, "thorough": {"runs": 1200000, "budget_s": 1500, "det": 256}},
     "C10": {"quick": {"runs": 16000, "budget_s": 75, "det": 32}, "thorough": {"runs": 1200000, "budget_s": 1500, "det": 256}},
     "C18": {"quick": {"runs": 60000, "budget_s": 60, "det": 64}, "thorough": {"runs": 3000000, "budget_s": 1200, "det": 512}},
-    "C20": {"quick": {"runs": 220, "budget_s": 80, "det": 4}, "thorough": {"runs": 12000, "budget_s": 1500, "det": 16}},
+    "C20": {"quick": {"runs": 700, "budget_s": 80, "det": 4}, "thorough": {"runs": 12000, "budget_s": 1500, "det": 16}},
     "C04": {"quick": {"runs": 14000, "budget_s": 75, "det": 32}, "thorough": {"runs": 1000000, "budget_s": 1500, "det": 256}},
     "C17": {"quick": {"runs": 14000, "budget_s": 75, "det": 32}, "thorough": {"runs": 1000000, "budget_s": 1500, "det": 256}},
 }
